@@ -177,3 +177,77 @@ Proof.
   - intros r order f H. destruct (ho_fields_sound r order f H) as [Hf | (k & vs & v & H1 & H2 & H3)]; [left; exact Hf|].
     right. exists k, vs, v. rewrite sanitize_trimmed in H3. auto.
 Qed.
+
+(* ------------------------------------------------------------------ every field nominated by Connection is removed *)
+Lemma upperc_dash c : (upperc c =? 45) = (c =? 45).
+Proof.
+  unfold upperc, is_lower. destruct ((97 <=? c) && (c <=? 122)) eqn:E; [|reflexivity].
+  apply andb_true_iff in E as [E1 E2]. apply N.leb_le in E1, E2.
+  transitivity false; [apply N.eqb_neq; lia | symmetry; apply N.eqb_neq; lia].
+Qed.
+Lemma lowerc_dash c : (lowerc c =? 45) = (c =? 45).
+Proof.
+  unfold lowerc, is_upper. destruct ((65 <=? c) && (c <=? 90)) eqn:E; [|reflexivity].
+  apply andb_true_iff in E as [E1 E2]. apply N.leb_le in E1, E2.
+  transitivity false; [apply N.eqb_neq; lia | symmetry; apply N.eqb_neq; lia].
+Qed.
+Lemma upperc_idem c : upperc (upperc c) = upperc c.
+Proof.
+  unfold upperc, is_lower. destruct ((97 <=? c) && (c <=? 122)) eqn:E; [|rewrite E; reflexivity].
+  apply andb_true_iff in E as [E1 E2]. apply N.leb_le in E1, E2.
+  destruct ((97 <=? c - 32) && (c - 32 <=? 122)) eqn:E'; [|reflexivity].
+  apply andb_true_iff in E' as [E3 _]. apply N.leb_le in E3. lia.
+Qed.
+Lemma upperc_token c : is_token_char c = true -> is_token_char (upperc c) = true.
+Proof.
+  intro H. unfold upperc, is_lower. destruct ((97 <=? c) && (c <=? 122)) eqn:E; [|exact H].
+  apply andb_true_iff in E as [E1 E2]. apply N.leb_le in E1, E2.
+  unfold is_token_char, is_alpha, is_upper.
+  replace ((65 <=? c - 32) && (c - 32 <=? 90)) with true; [reflexivity|].
+  symmetry. apply andb_true_iff. split; apply N.leb_le; lia.
+Qed.
+Lemma lowerc_token c : is_token_char c = true -> is_token_char (lowerc c) = true.
+Proof.
+  intro H. unfold lowerc, is_upper. destruct ((65 <=? c) && (c <=? 90)) eqn:E; [|exact H].
+  apply andb_true_iff in E as [E1 E2]. apply N.leb_le in E1, E2.
+  unfold is_token_char, is_alpha, is_lower.
+  replace ((97 <=? c + 32) && (c + 32 <=? 122)) with true; [rewrite orb_true_r; reflexivity|].
+  symmetry. apply andb_true_iff. split; apply N.leb_le; lia.
+Qed.
+
+Lemma canon_go_idem s : forall up, canon_go up (canon_go up s) = canon_go up s.
+Proof.
+  induction s as [|c s IH]; intro up; [reflexivity|]. cbn [canon_go].
+  destruct up.
+  - rewrite upperc_idem, upperc_dash, IH. reflexivity.
+  - rewrite lowerc_idem, lowerc_dash, IH. reflexivity.
+Qed.
+
+Lemma canon_go_token s : forall up, forallb is_token_char s = true -> forallb is_token_char (canon_go up s) = true.
+Proof.
+  induction s as [|c s IH]; intros up H; [reflexivity|]. cbn [forallb] in H. apply andb_true_iff in H as [Hc Hs].
+  cbn [canon_go forallb]. rewrite (IH _ Hs), andb_true_r. destruct up; [apply upperc_token | apply lowerc_token]; exact Hc.
+Qed.
+
+Lemma canon_idem s : canon (canon s) = canon s.
+Proof.
+  unfold canon. destruct (forallb is_token_char s) eqn:E; [|rewrite E; reflexivity].
+  rewrite (canon_go_token s true E). apply canon_go_idem.
+Qed.
+
+(* T02_connection_nominated_removed: whatever the origin's Connection field nominates — each
+   value split at commas, white space around an element ignored, any letter case — is absent
+   from the header the response is written from *)
+Theorem connection_nominated_removed :
+  hbh_trims_connection_token = true ->
+  forall h v t, In v (h_values (b "Connection") h) -> In t (split_byte 44 v) ->
+    raw_get (canon (trim_space t)) (remove_hop_by_hop h) = None.
+Proof.
+  intros Hf h v t Hv Ht. rewrite hop_by_hop_removed.
+  assert (E : existsb (str_eqb (canon (trim_space t))) (map canon (conn_listed h ++ hop_by_hop)) = true).
+  { apply existsb_exists. exists (canon (conn_token t)). split.
+    - apply in_map, in_or_app. left. unfold conn_listed. apply in_flat_map. exists v. split; [exact Hv|].
+      apply in_map. exact Ht.
+    - unfold conn_token. rewrite Hf, canon_idem. apply str_eqb_refl. }
+  rewrite E. reflexivity.
+Qed.
